@@ -1,6 +1,8 @@
 """harness-side for C18: symbolic schema-valid metamodel documents through the real generator/model.py"""
+import atexit
 import json
 import os
+import shutil
 import tempfile
 
 import attrs
@@ -309,6 +311,7 @@ def eq_foreign(k, sel, b, other):
 
 # ---------------------------------------------------------------- the schema gate
 _TMP = tempfile.mkdtemp(prefix="verif-c18-")
+atexit.register(shutil.rmtree, _TMP, True)  # the three concrete model files live only as long as this process
 MODEL_FILES = []
 for _i in range(3):
     _p = os.path.join(_TMP, "m%d.json" % _i)
